@@ -541,6 +541,7 @@ class Order(Case):
             obs.append(Ob.eq("lambda %d" % s, par.get_lambda(s), seq.get_lambda(s)))
         if n <= 4:
             obs.append(Ob.eq("joint state", tebd.joint_state(par), tebd.joint_state(seq)))
+        if n <= 4 and self.bond == 1:        # (bond 2: same statement as H1/op_nn, too heavy here)
             T0 = tebd.joint_from_tensors(gs, [np.diag(l) if inp.mode == "real" else lib._odiag(l) for l in lams])
             for g in gates:
                 T0 = tebd.o_nn(T0, g.sites[0], g.tensors[0], g.tensors[1])
@@ -696,7 +697,7 @@ def cases(tier):
         cs += [OpNn(4, 1, 2, (1, 2, 2, 1), 2), OpNn(4, 2, 2, (2, 1, 1, 2), 1, twice=True), OpNn(3, 1, 2, (2, 2, 2), 2, twice=True),
                OpSitePt(4, 2, (1, 2, 1, 1), 3), OpTraces(4, 2, (1, 2, 2, 1)),
                NormOne(3, 1, 2, "perm"), NormOne(4, 2, 1, "perm"), Generator(2, 2), Generator(4, 1)]
-        cs += [ProdStep(3, 1, 2, "sparse", 2), ProdStep(3, 2, 1, "sparse", 1), ProdStep(4, 1, 2, "perm", 2), ProdStep(3, 2, 2, "perm", 2)]
+        cs += [ProdStep(2, 1, 2, "sparse", 2), ProdStep(3, 2, 1, "sparse", 1), ProdStep(4, 1, 2, "perm", 2), ProdStep(3, 2, 2, "perm", 2)]
         cs += [Step(4, 1, 1, 2, "perm", 1), Step(4, 2, 1, 2, "perm", 1), Step(3, 1, 2, 2, "perm", 2, ptrank=3)]
         cs += [Order(4, "multithread", 2, 2), Order(6, "multiprocess", 1, 1), OrderRun(4, 2, "multiprocess", "perm"), OrderRun(5, 1, "multithread", "perm")]
     return cs
